@@ -486,6 +486,9 @@ def canon_impl(step, res, sids):
         return dict(pages=[canon_impl(sub, p, sids) for p in res["par"][0]])
     if step.get("model") == "(skip)":
         return dict(skip=True)
+    if step["kind"] == "refwalk":
+        import c07
+        return c07.canon_walk_impl(step, res)
     if step["kind"] == "split":
         mids = (res.get("par") or [[]])[0]
         return dict(mids=[canon_impl(m, r, sids) for m, r in zip(step["mids"], mids)], nmids=len(mids))
@@ -536,6 +539,9 @@ def canon_model(step, res, sids):
         return dict(pages=[canon_model(sub, p, sids) for p in res["pages"]])
     if step.get("model") == "(skip)" or res.get("skip"):
         return dict(skip=True)
+    if step["kind"] == "refwalk":
+        return dict(panic=False, status=res["status"], errs=res["errs"], digest=res["digest"],
+                    refs=sorted(dkey(d) for d in res["body"].get("refs", [])), filtered=res["filtered"], ctype=res["ctype"])
     if step["kind"] == "split":
         g = res["group"][:-1]
         return dict(mids=[canon_model(m, r, sids) for m, r in zip(step["mids"], g)], nmids=len(g))
